@@ -37,7 +37,7 @@ inductive Mode where
 on a context object of its own, `dec` = a call of THE function decorated with `@cache.transaction(m)` (one decorated function
 shared by all tasks), `obj` = `async with T:` on THE context object `T = cache.transaction(m)` kept at module level and shared by
 all tasks (entered by several tasks at once, and by one task nested in itself).  After the repair of D12
-(`async with TransactionContextDecorator(self._mode, self._timeout)` per call) and of D45 (what a block has to remember -
+(`async with TransactionContextDecorator(self._mode, self._timeout)` per call) and of D51 (what a block has to remember -
 which transaction it started, how many of its open blocks joined a running one - is kept per TRANSACTION, i.e. per task
 context, not per object: `_started[tx]`, `_inner[tx]`) no state is shared between the tasks that use one object, hence no rule
 below looks at the form. -/
